@@ -15,6 +15,7 @@ CONSTANTS G,           \* grammar: "G12" (NV variables), "G3" for_all, "G6" sub-
 
 AllLeaves == CASE G = "G12" -> (IF NV = 1 THEN LeavesG1 ELSE LeavesG2(NV))
                [] G = "G4"  -> LeavesG2(2)
+               [] G = "G1x" -> Cat([i \in 1..NV |-> Some(CoreLeaves(V(i)), 2)])    \* independent single-variable leaves
                [] G = "G3"  -> LeavesG3
                [] G = "G6"  -> LeavesG6
                [] G = "G7i" -> LeavesG7("int")
@@ -26,7 +27,8 @@ Leaves == Some(AllLeaves, LeafLimit)
 Sel(desc, sel) == [desc |-> desc, sel |-> sel, flats |-> <<>>, bound |-> <<>>]
 SelF(desc, sel, src) == [desc |-> desc, sel |-> sel, flats |-> <<src>>, bound |-> <<>>]
 Selections ==
-  CASE G = "G12" ->
+  CASE G = "G1x" -> << Sel("set_of", [j \in 1..NV |-> V(j)]), Sel("set_of", [j \in 1..NV |-> V(NV + 1 - j)]) >>
+    [] G = "G12" ->
        (IF NV = 1 THEN << Sel("entity", <<V(1)>>) >>
         ELSE IF NV = 2 THEN
           << Sel("set_of", <<V(1), V(2)>>), Sel("entity", <<V(1)>>), Sel("set_of", <<V(2), V(1)>>),
